@@ -795,6 +795,8 @@ class XPathToken(Token[ta.XPathTokenType]):
             return value
 
         type_name = type_name[3:].rstrip('+*?')
+        if type_name in ('numeric', 'anyAtomicType', 'anySimpleType', 'anyType'):
+            return value  # generic types, not castable
         token = cast('XPathConstructor', self.parser.symbol_table[type_name](self.parser))
 
         def cast_value(v: Any) -> Any:
